@@ -231,6 +231,22 @@ CLAIMED = {
         "unwinds after the last token read in both cases and the traces are compared.",
    technique="Coq proof (ledger invariant by nested induction over the include machine; abort point universally quantified) + event-trace correspondence",
    ref="5 (C11)"),
+ "C10": dict(
+   text="PARTIAL. Proved (Properties_C10.v, closed under the global context) about the include-machine model: path "
+        "resolution of the default include function (relative paths joined to the include directory with '/', absolute "
+        "paths and a missing directory leave the path as written) and of multi-path functions; every file is scanned from "
+        "line 1 at beginning-of-line in a buffer of its own and its tokens carry its name; the parser stamps a named "
+        "setting with the file and line of its name token; at the closing quote of a directive: nesting equal to "
+        "MAX_INCLUDE_DEPTH gives 'include file nesting too deep', a missing first target 'cannot open include file' and an "
+        "include-function error its message, each located at the directive (current file, its line) - for every state and "
+        "file system; chains of 10 / 11 levels and a cycle are evaluated on the compiled tables; the ledger/termination "
+        "side is C11. NOT proved: the equivalence with textual inlining (needs scanner compositionality across cut "
+        "points); it is checked on every run: include forests are read through the real library and the model and "
+        "compared with config_read_string of the spliced text, with per-setting provenance checked against the files.",
+   note="Known finding F13 (KNOWN-FINDING line): a later unopenable path of a multi-path include is reported at the "
+        "missing file, not at the directive (C10_later_file_error_refuted).",
+   technique="Coq proof (unfolding the include step under universally quantified state) + vm_compute instances + forest correspondence (partial)",
+   ref="5 (C10)"),
 }
 
 REASON_PENDING = "not decided in the committed state of this round: the Coq theorem for this property is not yet in the tree, and a property is never claimed on testing alone (DESIGN.md section 11)"
